@@ -453,7 +453,7 @@ def check_obligations(ctx: core.Ctx, g: GenInfo):
     cls = core.need(core.find_class(mod, "ExtendedKalmanFilter"), "cpp.ExtendedKalmanFilter")
     fn = core.need(core.find_func(cls, "_translate_control_covariance"), "cpp.ExtendedKalmanFilter._translate_control_covariance")
     params = [a.arg for a in fn.args.args if a.arg != "self"]
-    keymat.check_function(ctx, CPPF, "ExtendedKalmanFilter._translate_control_covariance", fn, params[0] if params else "covariance")
+    keymat.check_function(ctx, CPPF, "ExtendedKalmanFilter._translate_control_covariance", fn, params[0] if params else "covariance", mod=mod, cls=cls)
 
 
 def check_returns(ctx: core.Ctx, g: GenInfo):
